@@ -84,6 +84,27 @@ type c10Carrier struct {
 	Name   string
 	Wrap   func(s *ucfg.Config) interface{}
 	Prefix string // where S's content lands in D
+	Opts   []ucfg.Option
+}
+
+// carriers in which further keys of the same input reach into the embedded Config
+type carrierDottedAfter struct {
+	C *ucfg.Config `config:"k"`
+	X int          `config:"k.zz9"`
+}
+type carrierDottedBefore struct {
+	X int          `config:"k.zz9"`
+	C *ucfg.Config `config:"k"`
+}
+type carrierDeepAfter struct {
+	C *ucfg.Config `config:"k"`
+	X int          `config:"k.a.zz9"`
+	Y int          `config:"k.l.0.zz9"`
+	Z int          `config:"k.0.zz9"`
+}
+type carrierSameName struct {
+	C *ucfg.Config           `config:"k"`
+	M map[string]interface{} `config:"k"`
 }
 
 type carrierPtr struct{ C *ucfg.Config }
@@ -95,14 +116,21 @@ type carrierNested struct {
 }
 
 var c10Carriers = []c10Carrier{
-	{"direct", func(s *ucfg.Config) interface{} { return s }, ""},
-	{"map{k:S}", func(s *ucfg.Config) interface{} { return M{"k": s} }, "k."},
-	{"map{k:{j:S}}", func(s *ucfg.Config) interface{} { return M{"k": M{"j": s}} }, "k.j."},
-	{"map{k:[S]}", func(s *ucfg.Config) interface{} { return M{"k": L{s}} }, "k.0."},
-	{"struct{C *Config}", func(s *ucfg.Config) interface{} { return carrierPtr{s} }, "c."},
-	{"struct{C Config}", func(s *ucfg.Config) interface{} { return carrierVal{*s} }, "c."},
-	{"map[string]*Config", func(s *ucfg.Config) interface{} { return map[string]*ucfg.Config{"k": s} }, "k."},
-	{"[]*Config", func(s *ucfg.Config) interface{} { return M{"k": []*ucfg.Config{s, s}} }, "k.1."},
+	{"direct", func(s *ucfg.Config) interface{} { return s }, "", nil},
+	{"map{k:S}", func(s *ucfg.Config) interface{} { return M{"k": s} }, "k.", nil},
+	{"map{k:{j:S}}", func(s *ucfg.Config) interface{} { return M{"k": M{"j": s}} }, "k.j.", nil},
+	{"map{k:[S]}", func(s *ucfg.Config) interface{} { return M{"k": L{s}} }, "k.0.", nil},
+	{"struct{C *Config}", func(s *ucfg.Config) interface{} { return carrierPtr{s} }, "c.", nil},
+	{"struct{C Config}", func(s *ucfg.Config) interface{} { return carrierVal{*s} }, "c.", nil},
+	{"map[string]*Config", func(s *ucfg.Config) interface{} { return map[string]*ucfg.Config{"k": s} }, "k.", nil},
+	{"[]*Config", func(s *ucfg.Config) interface{} { return M{"k": []*ucfg.Config{s, s}} }, "k.1.", nil},
+	{"struct{C *Config `k`; X int `k.zz9`}", func(s *ucfg.Config) interface{} { return carrierDottedAfter{s, 5} }, "k.", []ucfg.Option{ucfg.PathSep(".")}},
+	{"struct{X int `k.zz9`; C *Config `k`}", func(s *ucfg.Config) interface{} { return carrierDottedBefore{5, s} }, "k.", []ucfg.Option{ucfg.PathSep(".")}},
+	{"struct{C *Config `k`; X,Y,Z int `k.a.zz9`,`k.l.0.zz9`,`k.0.zz9`}", func(s *ucfg.Config) interface{} { return carrierDeepAfter{s, 5, 6, 7} }, "k.", []ucfg.Option{ucfg.PathSep(".")}},
+	{"struct{C *Config `k`; M map `k`}", func(s *ucfg.Config) interface{} {
+		return carrierSameName{s, M{"zz9": 1, "a": M{"zz9": 2}}}
+	}, "k.", nil},
+	{"map{k:S, k.zz9:5, k.a.zz9:6}", func(s *ucfg.Config) interface{} { return M{"k": s, "k.zz9": 5, "k.a.zz9": 6} }, "k.", []ucfg.Option{ucfg.PathSep(".")}},
 }
 
 var c10Dests = []struct {
@@ -290,6 +318,7 @@ func c10Space(name string, seqLen int) *core.Space {
 				before := c10Snapshot(s, keep, c.src.Opts)
 				mopts := append([]ucfg.Option{}, c.src.Opts...)
 				mopts = append(mopts, policyOpt[c.pol]...)
+				mopts = append(mopts, c.car.Opts...)
 				err := d.Merge(c.car.Wrap(s), mopts...)
 				after := c10Snapshot(s, keep, c.src.Opts)
 				sigBase := fmt.Sprintf("carrier=%s source=%s", c.car.Name, srcClass(c.src.Name))
